@@ -45,7 +45,8 @@ META = {
     "rule": "seeded random trees (depth 1..4) built through darklua's node constructors over adversarial name/number/"
             "string pools, each at column spans {0,1,2,7,80,120,10^9}; exhaustive ordered pairs of 35 expression samples "
             "(one per token class) in every syntactic position at all spans; all operator trees with <= 2 operator nodes, "
-            "triples (sampled in quick, exhaustive in thorough), deeper random trees; statement pairs; a case is "
+            "triples (sampled in quick, exhaustive in thorough), deeper random trees; statement pairs; calls with 0/1 "
+            "arguments at every span 0..len+2; long-bracket string candidates in every string position; a case is "
             "non-trivial when the dense output differs from the plain concatenation of the pushed texts (a separator or "
             "line break was inserted), when the generator inserted a parenthesis, or when the second statement starts "
             "with '('; distinct by (push list or tree, span)",
@@ -156,15 +157,38 @@ def undash(h):
     return "" if h == "-" else h
 
 
+def parse_nl(field):
+    """`nl=<dense>,<readable>`: number of call parentheses that are the first token of a line in each text
+    (`x`: darklua's parser could not read the text, reported by the round-trip flag)"""
+    d, r = field[3:].split(",")
+    return (int(d) if d != "x" else 0, int(r) if r != "x" else 0)
+
+
+def newline_violations(ctx, stream, rows, describe):
+    """model-independent oracle on the generated text: no call may have its '(' as the first token of a line"""
+    bad = [r for r in rows if r["nl"] != (0, 0)]
+    known = [r for r in bad if "+wrapped-last-operand" in r["tag"] or r["tag"].startswith(("genparen", "ifexp_genparen"))]
+    others = [r for r in bad if r not in known]
+    for r in known[:1] + others[:3]:
+        which = "dense" if r["nl"][0] else "readable"
+        ctx.violation("%s generator: the '(' of a call is the first token of a line at span %d (Lua 5.1 manual 2.5.8: "
+                      "ambiguous syntax; Luau reports the same text as ambiguous): a line break landed between a callee "
+                      "and its arguments" % (which, r["span"]),
+                      dict(describe(r), stream=stream, span=r["span"], call_parentheses_starting_a_line=list(r["nl"])),
+                      key=("semicolon:generator-parenthesised-last-operand" if r in known
+                           else "call-newline:%s:%s:%d" % (which, r.get("ref", r["dense"])[:80], r["span"])))
+    return len(bad)
+
+
 def parse_cases(out):
     """harness lines -> list of dicts grouped so that each case knows its reference (largest span) output"""
     rows = []
     for line in out.splitlines():
         p = line.split(" ")
-        if len(p) != 9 or p[0] != "case":
+        if len(p) != 10 or p[0] != "case":
             continue
         rows.append({"id": int(p[1]), "span": int(p[2]), "items": p[3], "dense": undash(p[4]),
-                     "readable": undash(p[5]), "dflag": p[6], "rflag": p[7], "tag": p[8]})
+                     "readable": undash(p[5]), "dflag": p[6], "rflag": p[7], "tag": p[8], "nl": parse_nl(p[9])})
     # the reference of a tree is its dense output at the largest span of its group (same items, consecutive ids)
     groups = []
     for r in rows:
@@ -278,7 +302,10 @@ def run_stream(ctx, name, rows, exe, vm_sample):
     nt = sum(1 for r in rows if nontrivial(r))
     samples = [{"span": r["span"], "dense": text_of(r["dense"])[:200]} for r in rows if nontrivial(r)][:3]
     reparse_bad = [r for r in rows if r["dflag"] not in ("ok", "okp") or r["rflag"] not in ("ok", "okp")]
+    nl_bad = newline_violations(ctx, name, rows, lambda r: {"dense": text_of(r["dense"]), "readable": text_of(r["readable"]),
+                                                           "tag": r["tag"]})
     ctx.stream(name, len(rows), nt, samples, mismatches=len(bad), reparse_mismatches=len(reparse_bad),
+               call_parentheses_starting_a_line=nl_bad,
                modelled=sum(1 for r in rows if r["items"] != "-"), evaluated_in_coqc=len(pick))
     model_only = []
     for cid, diag in bad:
@@ -416,10 +443,10 @@ def run_stmts(ctx, out, exe, vm_sample):
     rows = []
     for line in out.splitlines():
         p = line.split(" ")
-        if len(p) != 11 or p[0] != "st":
+        if len(p) != 12 or p[0] != "st":
             continue
         rows.append({"span": int(p[2]), "exprend": p[3], "a": undash(p[4]), "b": undash(p[5]), "dense": undash(p[6]),
-                     "readable": undash(p[7]), "dflag": p[8], "rflag": p[9], "tag": p[10]})
+                     "readable": undash(p[7]), "dflag": p[8], "rflag": p[9], "tag": p[10], "nl": parse_nl(p[11])})
     lines = ["st %d %s %s %s %s %s" % (i, r["exprend"], r["a"] or "-", r["b"] or "-", r["dense"] or "-", r["readable"] or "-")
              for i, r in enumerate(rows)]
     rc, res = C.sh([exe], input="\n".join(lines) + "\n", timeout=3000)
@@ -446,8 +473,11 @@ def run_stmts(ctx, out, exe, vm_sample):
                    not disagree, "disagreements at cases %r" % disagree[:5])
     nt = sum(1 for r in rows if bytes.fromhex(r["b"]).startswith(b"(") and r["exprend"] == "1")
     reparse_bad = [i for i, r in enumerate(rows) if r["dflag"] not in ("ok", "okp") or r["rflag"] not in ("ok", "okp")]
+    nl_bad = newline_violations(ctx, name, rows, lambda r: {"pair": r["tag"], "dense": text_of(r["dense"]),
+                                                           "readable": text_of(r["readable"])})
     ctx.stream(name, len(rows), nt, [{"pair": r["tag"], "dense": text_of(r["dense"])} for r in rows[40:43]],
-               mismatches=len(bad), reparse_mismatches=len(reparse_bad), evaluated_in_coqc=len(pick))
+               mismatches=len(bad), reparse_mismatches=len(reparse_bad), call_parentheses_starting_a_line=nl_bad,
+               evaluated_in_coqc=len(pick))
     for i in sorted(bad_ids | set(reparse_bad)):
         r = rows[i]
         ending = r["tag"].split(":")[0]
@@ -460,6 +490,70 @@ def run_stmts(ctx, out, exe, vm_sample):
                       {"pair": r["tag"], "span": r["span"], "statement_a": text_of(r["a"]), "statement_b": text_of(r["b"]),
                        "dense": text_of(r["dense"]), "readable": text_of(r["readable"]),
                        "reference_criterion": dict(bad).get(i, "ok"), "darklua_parser": [r["dflag"], r["rflag"]]}, key=key)
+
+
+PREAMBLE_STR = """From DL Require Import Lib.Bytes Model.Lexer Model.DenseGen Model.Precedence Model.C02Check.
+Open Scope N_scope.
+Open Scope string_scope.
+Definition vc (v d r : string) : vcase := {| v_value := unhex v; v_dense := unhex d; v_readable := unhex r |}.
+Definition check_case (c : vcase) : bool := vcheck_case c.
+Definition diag_case (c : vcase) : string := to_string (vdiag_bytes c).
+"""
+
+
+def run_strings(ctx, out, exe, vm_sample):
+    name = ("long bracket candidates (>= 60 printable bytes or >= 20 bytes with >= 6 new lines, closers of levels 0..k-1 "
+            "inside, ending in ']' '='^j, optional leading new line) as return value, index key, call argument, string "
+            "call, table key, concat operand: the reference lexer reads exactly one string token and the C13 reference "
+            "decoder decodes it to the value")
+    rows = []
+    for line in out.splitlines():
+        p = line.split(" ")
+        if len(p) != 9 or p[0] != "str":
+            continue
+        rows.append({"span": int(p[2]), "value": undash(p[3]), "dense": undash(p[4]), "readable": undash(p[5]),
+                     "dflag": p[6], "rflag": p[7], "tag": p[8]})
+    lines = ["str %d %s %s %s" % (i, r["value"] or "-", r["dense"] or "-", r["readable"] or "-") for i, r in enumerate(rows)]
+    shards = [lines[k::C.NPROC] for k in range(C.NPROC)]
+    bad = []
+
+    def one(shard):
+        if not shard:
+            return 0, "done 0\n"
+        return C.sh([exe], input="\n".join(shard) + "\n", timeout=3000)
+    with C.ThreadPoolExecutor(max_workers=C.NPROC) as ex:
+        for shard, (rc, res) in zip(shards, ex.map(one, shards)):
+            done = None
+            for line in res.splitlines():
+                if line.startswith("bad "):
+                    _, cid, diag = (line.split(" ", 2) + [""])[:3]
+                    bad.append((int(cid), diag))
+                elif line.startswith("done "):
+                    done = int(line.split()[1])
+            if rc != 0 or done != len(shard):
+                raise C.CheckBroken("extracted C02 checker failed on string literals (rc=%s):\n%s" % (rc, res[-1500:]))
+    flagged = sorted(set(cid for cid, _ in bad))[:10]
+    pick = sorted(set(list(range(0, len(rows), max(1, len(rows) // vm_sample))) + flagged))
+    vm_bad = C.run_coq_cases(ctx.prop, PREAMBLE_STR,
+                             [(i, 'vc "%s" "%s" "%s"' % (rows[i]["value"], rows[i]["dense"], rows[i]["readable"])) for i in pick],
+                             chunk=max(4, len(pick) // C.NPROC + 1), tag="strings")
+    bad_ids = set(cid for cid, _ in bad)
+    vm_ids = set(cid for cid, _ in vm_bad)
+    disagree = [i for i in pick if (i in bad_ids) != (i in vm_ids)]
+    ctx.obligation("extracted checker agrees with vm_compute inside coqc on %d sampled string literals" % len(pick),
+                   not disagree, "disagreements at cases %r" % disagree[:5])
+    # non-trivial: the value was written as a long bracket literal
+    nt = sum(1 for r in rows if b"[[" in bytes.fromhex(r["dense"]) or b"[=" in bytes.fromhex(r["dense"]))
+    reparse_bad = [i for i, r in enumerate(rows) if r["dflag"] not in ("ok", "okp") or r["rflag"] not in ("ok", "okp")]
+    ctx.stream(name, len(rows), nt, [{"value": text_of(r["value"])[-30:], "dense": text_of(r["dense"])[-40:]} for r in rows[30:33]],
+               mismatches=len(bad), reparse_mismatches=len(reparse_bad), evaluated_in_coqc=len(pick))
+    for i in sorted(bad_ids | set(reparse_bad))[:4]:
+        r = rows[i]
+        ctx.violation("a string value is not written as one literal that decodes to the value (%s; darklua's parser: %s/%s)"
+                      % (dict(bad).get(i, "reference lexer+decoder ok").strip(), r["dflag"], r["rflag"]),
+                      {"value_hex": r["value"], "value_tail": text_of(r["value"])[-40:], "position": r["tag"], "span": r["span"],
+                       "dense": text_of(r["dense"]), "readable": text_of(r["readable"])},
+                      key="string-literal:%s" % r["value"][-60:])
 
 
 def dump_tables(ctx):
@@ -528,6 +622,13 @@ def run(ctx):
                        "diag": diag, "mismatches": len(ops_model_only)}, found_input=False)
 
     run_stmts(ctx, C.harness("dl-c02", ["stmts"], timeout=1800), exe, 60 if quick else 300)
+
+    rows = parse_cases(C.harness("dl-c02", ["calls"], timeout=1800))
+    model_only += run_stream(ctx, "calls at small spans: zero- and one-argument calls (function and method form, chains, parenthesised "
+                             "callee) at every column span from 0 to the statement length + 2", rows, exe, 40 if quick else 200)
+
+    run_strings(ctx, C.harness("dl-c02", ["strings", "--seed", str(ctx.seed), "--random", "40" if quick else "600"], timeout=1800),
+                exe, 24 if quick else 100)
 
     if model_only and not ctx.violations:
         r, diag = model_only[0]
